@@ -8,7 +8,7 @@ decidable hypotheses that exclude exactly the defect classes (known_findings.jso
 same class names). Four defects were repaired in /repo (bitwise operators, sub-microsecond
 durations, IN-set members, `::time`): their theorems hold in full.
 -/
-import OG.C12.GoodLemmas
+import OG.C12.YaccShape
 
 namespace OG.C12
 open OG.Gen.C12
@@ -299,28 +299,36 @@ theorem expr_roundtrip_full_false_literal : ¬ expr_roundtrip_full := by
 theorem allNodes_goodAll (e : Expr) (hs : allNodes shapeOK e = true) (hn : allNodes nodeOK e = true)
     (h1 : NoMixedAndOr e = true) (h2 : NoUnaryMinusOperand e = true) (h3 : NoLikeArith e = true)
     (h4 : NoIntegralNumberLit e = true) (h5 : NoInfNanIdent e = true) (h6 : CallNamesPlain e = true)
-    (h7 : allNodes pRegex e = true) (h8 : NoTagTypedBeforeDiv e = true) : allNodes goodAll e = true := by
+    (h7 : allNodes pRegex e = true) (h8 : NoTagTypedBeforeDiv e = true) (h9 : TypesReadBack e = true)
+    (h10 : DursInRange e = true) (h11 : SetsReadBack e = true) : allNodes goodAll e = true := by
   have : goodAll = fun x => shapeOK x && nodeOK x && pMixed x && pNeg x && pLike x && pIntegral x &&
-      pInfNan x && pCallPlain x && pRegex x && pTagDiv x := rfl
+      pInfNan x && pCallPlain x && pRegex x && pTagDiv x && pTypes x && pDur x && pSets x := rfl
   rw [this]
   simp only [allNodes_and]
   unfold NoMixedAndOr NoUnaryMinusOperand NoLikeArith NoIntegralNumberLit NoInfNanIdent CallNamesPlain
-    NoTagTypedBeforeDiv at *
-  simp [hs, hn, h1, h2, h3, h4, h5, h6, h7, h8]
+    NoTagTypedBeforeDiv TypesReadBack DursInRange SetsReadBack at *
+  simp [hs, hn, h1, h2, h3, h4, h5, h6, h7, h8, h9, h10, h11]
 
 /-- **the property for conditions**, under hypotheses that exclude exactly the defect classes:
-a tree the statement parser built (`YaccOut`: its shape and literal ranges) that shows none of
-them is re-parsed from its printout as itself — same operators, same grouping, same literals
-with their types, same identifiers and regular expressions. -/
+a tree the statement parser built that shows none of them is re-parsed from its printout as
+itself — same operators, same grouping, same literals with their types, same identifiers and
+regular expressions. `h1`–`h9` are the nine defect classes of known_findings.jsonl; `h10`, `h11`
+are not defects but two facts about scanner / model output that are not proved here (a
+DURATIONVAL never starts with `-`; the members of a key set are read back into the same set) —
+the driver checks both on every case it runs. That the tree has the shape `YaccOut` is proved
+(`yaccParse_out`). -/
 theorem expr_roundtrip_partial (toks : List Tok) (e : Expr)
-    (_hy : yaccParse toks = some e) (hout : YaccOut e = true)
+    (hy : yaccParse toks = some e)
     (h1 : NoMixedAndOr e = true) (h2 : NoUnaryMinusOperand e = true) (h3 : NoLikeArith e = true)
     (h4 : NoIntegralNumberLit e = true) (h5 : NoInfNanIdent e = true) (h6 : CallNamesPlain e = true)
-    (h7 : RegexPlacementOK e = true) (h8 : NoTagTypedBeforeDiv e = true) :
+    (h7 : RegexPlacementOK e = true) (h8 : NoTagTypedBeforeDiv e = true) (h9 : TypesReadBack e = true)
+    (h10 : DursInRange e = true) (h11 : SetsReadBack e = true) :
     parseExpr (print e) = some e := by
+  have hout := yaccParse_out toks e hy
   simp only [YaccOut, Bool.and_eq_true] at hout
   simp only [RegexPlacementOK, Bool.and_eq_true] at h7
-  obtain ⟨hc, ha⟩ := good_canon_atoms e (allNodes_goodAll e hout.1.1 hout.1.2 h1 h2 h3 h4 h5 h6 h7.2 h8)
+  obtain ⟨hc, ha⟩ := good_canon_atoms e
+    (allNodes_goodAll e hout.1.1 hout.1.2 h1 h2 h3 h4 h5 h6 h7.2 h8 h9 h10 h11)
   exact parseExpr_print e hc ha h7.1 hout.2
 
 /-- non-vacuity: a condition that mixes four precedence levels, a quoted identifier, a typed
@@ -335,7 +343,7 @@ def sampleToks : List Tok :=
 example : (match yaccParse sampleToks with
     | some e => YaccOut e && NoMixedAndOr e && NoUnaryMinusOperand e && NoLikeArith e &&
         NoIntegralNumberLit e && NoInfNanIdent e && CallNamesPlain e && RegexPlacementOK e &&
-        NoTagTypedBeforeDiv e && decide (parseExpr (print e) = some e) && decide (nops e = 4)
+        NoTagTypedBeforeDiv e && TypesReadBack e && DursInRange e && SetsReadBack e && decide (parseExpr (print e) = some e) && decide (nops e = 4)
     | none => false) = true := by decide
 
 /-! ## option / plan / chunk codecs: field coverage
@@ -358,7 +366,9 @@ def optionsLocal : List String :=
 
 theorem options_codec_covered :
     subsetOf cov_options_wireWritten cov_options_wireRead = true ∧
+    subsetOf cov_options_wireRead cov_options_wireWritten = true ∧
     subsetOf cov_options_encoded cov_options_decoded = true ∧
+    subsetOf cov_options_decoded cov_options_encoded = true ∧
     subsetOf cov_options_fields (cov_options_encoded ++ optionsLocal) = true := by decide
 
 def measurementLocal : List String := ["IsSystemStatement", "Alias", "MstType"]
@@ -385,12 +395,12 @@ theorem chunk_codec_covered :
     subsetOf cov_chunkTags_fields (cov_chunkTags_encoded ++ ["offsets"]) = true := by decide
 
 /-- plan nodes: every node type `MarshalBinary` ships has a case in `UnmarshalBinaryNode` that
-reads every message field written for it and builds a node — except LogicalMst, whose case is
+reads exactly the message fields written for it and builds a node — except LogicalMst, whose case is
 marked "unused" in the source and builds nothing (recorded). -/
 theorem plan_codec_covered :
     cov_plan.all (fun (name, written, read?, builds) =>
       match read? with
-      | some read => subsetOf written read && (builds || name == "LogicalMst")
+      | some read => subsetOf written read && subsetOf read written && (builds || name == "LogicalMst")
       | none => false) = true := by decide
 
 end OG.C12
